@@ -16,7 +16,7 @@ EXPLANATION = (
     "it untouched on any other error; start-up input is written from data+written for size-written until written >= size (loop "
     "exit fact), any write error fails start, then stdin is closed and invalidated; after a successful start the parent holds no "
     "child-side end (so end-of-file can propagate); reproc_close closes and invalidates the chosen stream. Not decided: that "
-    "bytes arrive once and in order through the kernel pipe under every interleaving.")
+    "bytes arrive once and in order through the kernel pipe under every interleaving. Also: the parent's end of a stream is released exactly once even when close() reports an error (S2d); only the closed-pipe path of read/write, reproc_close and reproc_destroy ever close a stream end - wait, stop, terminate, kill and poll never do, so output buffered when the child exits stays readable (S6); no buffer between read and consumer lives in shared static storage (C20.H1).")
 ASSUMPTIONS = [
     "clang 14 parser/CFG and the fact extractor are correct", "read()/write() transfer bytes between the given buffer and the pipe in order; read()==0 means end of file",
     "the handle invariant (C14) holds at entry of every call",
